@@ -6,6 +6,8 @@
 
 pub mod error;
 pub mod hash;
+#[cfg(kani)]
+pub mod kani_shim;
 pub mod strings;
 
 pub use error::{Error, Result};
